@@ -48,8 +48,8 @@ theorem constructor_admits_iff (cfg : Cfg) : construct cfg = some cfg ↔ Prefix
     · cases h
   · intro h; rw [if_pos h]
 
-/-- …and REJECTS every other one (it raises; no resolver object exists on which `get_valid_name` could be
-called). This replaces the former refutation `retry_diverges_without_prefixOK` (finding D22, repaired): the
+/-- …and REJECTS every other one: it raises, so no resolver object exists on which `get_valid_name` could be
+called. This replaces the former refutation `retry_diverges_without_prefixOK` (finding D22, repaired): the
 prefixes for which the loop would not end — `"9"`, `"a-b"` — are exactly among those refused here. -/
 theorem constructor_rejects_bad_prefix (cfg : Cfg) (h : ¬ PrefixStart cfg) : construct cfg = none := by
   unfold construct; rw [if_neg h]
@@ -171,7 +171,8 @@ example : mro ∈ Dcg.Gen.EnumSites.resolverExcludes ++ [mro] ∧
   decide +kernel
 
 /-- non-vacuity of `result_legal` beyond `PrefixOK`: the empty prefix with `remove_special_field_name_prefix`
-(`_1` is stripped to `1`, re-prefixed to `_1`), and a keyword reached through a `_` prefix -/
+(`_1` is stripped to `1`, re-prefixed to `_1`, which is excluded, so the loop numbers it), and the prefix `_`
+(`__1` is stripped to `1` and re-prefixed to `__1`) -/
 example : getValidName pyEnv .base { pfx := [], removePrefix := true } ['_', '1'] [['_', '1']] false false
     = .ok ['_', '1', '_', '1'] := by decide +kernel
 example : getValidName pyEnv .pydantic { pfx := ['_'], removePrefix := true } ['_', '_', '1'] [] false false
